@@ -350,18 +350,28 @@ static std::string apply(C& c, const Op& o)
         out << "L";
         if constexpr (KD == UTSET)
         {
+            // the answers handed in are sometimes already filled (a buffer that is used again): a lookup overwrites them
+            const bool pre = ((o.keys.size() + (o.keys.empty() ? 0 : (size_t)o.keys[0])) & 1) != 0;
             std::vector<std::pair<Key, bool>> r;
             for (auto k : o.keys)
-                r.emplace_back(k, false);
+                r.emplace_back(k, pre);
             c.find_range_fill(r);
             for (auto& [k, b] : r)
                 out << " " << k << "=" << fmt_optb(b);
         }
         else
         {
+            // the optionals handed in are sometimes already engaged, holding a value no key was ever written with
+            // (a result buffer that is used again): every lookup overwrites its slot, hit or miss
+            const bool pre = ((o.keys.size() + (o.keys.empty() ? 0 : (size_t)o.keys[0])) & 1) != 0;
             std::vector<std::pair<Key, std::optional<V>>> r;
             for (auto k : o.keys)
-                r.emplace_back(k, std::nullopt);
+            {
+                if (pre)
+                    r.emplace_back(k, std::optional<V>{V(-7)});
+                else
+                    r.emplace_back(k, std::nullopt);
+            }
             if constexpr (KD == LRU || KD == MRU || KD == TLRU || KD == UTLRU)
                 c.find_range_fill(r, o.peek ? peek::yes : peek::no);
             else if constexpr (KD == LFU || KD == LFUDA)
